@@ -12,9 +12,11 @@ pub mod c10;
 pub mod c11;
 pub mod c12;
 pub mod c15;
+pub mod c16;
+pub mod c17;
 
 pub fn ids() -> Vec<&'static str> {
-    vec!["C01", "C02", "C03", "C04", "C07", "C08", "C10", "C11", "C12", "C15"]
+    vec!["C01", "C02", "C03", "C04", "C07", "C08", "C10", "C11", "C12", "C15", "C16", "C17"]
 }
 
 pub fn get(id: &str, ctx: &Ctx) -> Option<PropertyDef> {
@@ -29,6 +31,8 @@ pub fn get(id: &str, ctx: &Ctx) -> Option<PropertyDef> {
         "C11" => c11::def(ctx),
         "C12" => c12::def(ctx),
         "C15" => c15::def(ctx),
+        "C16" => c16::def(ctx),
+        "C17" => c17::def(ctx),
         _ => return None,
     })
 }
